@@ -974,26 +974,14 @@ func (c PrepareCallInstr) execute(env *Zlisp) error {
 		switch g := indirectFuncName.(type) {
 		case *SexpFunction:
 			if !g.user {
-				nargs := c.nargs
-				if err := env.prepareLazyCallArgs(g, &nargs); err != nil {
-					return err
-				}
-				if g.varargs {
-					return env.wrangleOptargs(g.nargs, nargs)
-				}
+				return env.checkCallArgs(g, c.nargs)
 			}
 			return nil
 		}
 
 	case *SexpFunction:
 		if !f.user {
-			nargs := c.nargs
-			if err := env.prepareLazyCallArgs(f, &nargs); err != nil {
-				return err
-			}
-			if f.varargs {
-				return env.wrangleOptargs(f.nargs, nargs)
-			}
+			return env.checkCallArgs(f, c.nargs)
 		}
 	}
 	return nil
